@@ -733,3 +733,6 @@ def check(ctx):
         T_conflict(ctx, lib)
         P_final(ctx, lib)
         closure_exits(ctx, lib)
+    if ctx.tier == "thorough":
+        from rules import witness
+        witness.check(ctx, ['W08', 'W09'])   # informational: what external crates cannot reach (scope of the who-may-write census)
